@@ -23,8 +23,8 @@ ASSUMPTIONS = [
     'degenerate case compared with rtol 1e-9, plus the licensed e^-10 relative slack for emission (the cross-section path clamps saturated transmittances, the k path does not)',
     'general case: Jensen bound judged on transmission models; the cross-section run uses the weight-averaged coefficient table (interpolation is linear in the coefficients in linear mode)',
 ]
-RULE = RULE + ' ' + 'Also: the same k-mode model evaluated on two windows of equal length in sequence; the per-layer terms of the emission families in k-mode. Round 9: in half of the cases one parameter (temperature, planet mass or an abundance) is moved alone - the k-mode model is evaluated at the drawn parameters first and then at the new ones, the cross-section model gets the new value before its first evaluation, so every clause compares a k-mode model with a past against a fresh cross-section model.'
-REQUIRED = {'live-update:planet_mass': 0.05, 'live-update:abundance': 0.05, 'live-update:temperature': 0.01, 'refused-quadrature-before-use': 0.1, 'zero-weight-point': 0.15, 'requadrature': 0.08, 'grids:same-ends-other-spacing': 0.15, 'family:transmission': 0.2, 'family:emission': 0.2, 'degenerate': 0.3, 'general': 0.2, 'profile:noniso': 0.3}
+RULE = RULE + ' ' + 'Also: the same k-mode model evaluated on two windows of equal length in sequence; the per-layer terms of the emission families in k-mode. Round 9: in half of the cases one parameter (temperature, planet mass or an abundance) is moved alone - the k-mode model is evaluated at the drawn parameters first and then at the new ones, the cross-section model gets the new value before its first evaluation, so every clause compares a k-mode model with a past against a fresh cross-section model. Round 11: a third of the two-grid worlds put the second molecule on a grid reaching beyond the first one at both ends (the model grid ends lie strictly between two of its nodes).'
+REQUIRED = {'live-update:planet_mass': 0.05, 'live-update:abundance': 0.05, 'live-update:temperature': 0.006, 'refused-quadrature-before-use': 0.1, 'zero-weight-point': 0.15, 'requadrature': 0.08, 'grids:same-ends-other-spacing': 0.1, 'grids:other-spacing-wider-ends': 0.04, 'family:transmission': 0.2, 'family:emission': 0.2, 'degenerate': 0.3, 'general': 0.2, 'profile:noniso': 0.3}
 
 
 @st.composite
@@ -65,6 +65,10 @@ def warped_grids(w, warp):
     t_ = (base - base[0]) / (base[-1] - base[0])
     other = base[0] + (base[-1] - base[0]) * (0.45 * t_ + 0.55 * t_ ** 2)
     other[0], other[-1] = base[0], base[-1]
+    if warp == 'wider':
+        # the second molecule's table reaches beyond the first one's at both ends: the model grid's end points lie strictly
+        # between two of its nodes
+        other[0], other[-1] = base[0] - 0.37 * w['dwn'], base[-1] + 0.41 * w['dwn']
     return {g['mol']: (base if i == 0 else other) for i, g in enumerate(tabbed)}
 
 
@@ -134,9 +138,12 @@ def check(case):
     out.cls('degenerate' if case['degenerate'] else 'general')
     out.cls('ng:%s' % ('1' if len(wts) == 1 else ('2-5' if len(wts) <= 5 else '6-20')))
     try:
-        grids = warped_grids(w, case.get('warp'))
+        warp_ = case.get('warp')
+        if warp_ and (case['ngauss'] + len(case['weights'])) % 3 == 0:
+            warp_ = 'wider'
+        grids = warped_grids(w, warp_)
         if grids:
-            out.cls('grids:same-ends-other-spacing')
+            out.cls('grids:other-spacing-wider-ends' if warp_ == 'wider' else 'grids:same-ends-other-spacing')
         Wk = cut(out, 'build-world@k', build_k, w, wts, fac, grids)
         mk, rk = run(out, Wk, family, case, 'k')
         from vlib.props.c01 import zero_corner_ambiguous
